@@ -3,3 +3,4 @@ import MatidModel.Radii
 import MatidModel.Table
 import MatidModel.Chirality
 import MatidModel.Primitive
+import MatidModel.WyckoffParams
